@@ -76,6 +76,17 @@ SCENARIOS.update({
                                            "threads": {"A": [["send_text", P("A", 0)], ["send_text", P("A", 1)]]},
                                            "loop": {"bytes": INCOMING_SNCT, "idle_waits": 0}, "copts": {"ping_rate": 0}},
 })
+import hashlib as _hashlib
+_NOISE = (_hashlib.sha256(b"noise-1").digest() + _hashlib.sha256(b"noise-2").digest()[:16]).hex()     # 48 random bytes
+SCENARIOS.update({
+    # content-dependent paths: a payload deflate cannot shrink (random bytes), and another sender's payload that repeats
+    # it (what the first one leaves in the shared window matters to the second)
+    "incompressible_vs_overlapping_binary_deflate": {"deflate": True, "threads": {
+        "A": [["send_binary_hex", _NOISE]], "B": [["send_binary_hex", "3e3e" + _NOISE + _NOISE]]}},
+    "incompressible_then_text_vs_overlapping_deflate": {"deflate": True, "threads": {
+        "A": [["send_binary_hex", _NOISE], ["send_text", "x" + _NOISE]],
+        "B": [["send_binary_hex", _NOISE[16:80] + "7c" + _NOISE]]}},
+})
 BOUND2 = ["2x1_text_plain", "2x1_text_deflate", "2x1_text_binary_deflate", "2x1_text_ping_deflate"]
 FIRST_USE = ["2x1_text_deflate", "2x1_text_deflate_nct", "2x2_deflate_nct"]
 IN_WRITE = ["2x2_plain", "close_vs_2_sends", "3x1_deflate", "send_ping_close", "close_close_send"]
@@ -130,8 +141,8 @@ def judge(scn, out):
             if result != "ok":
                 return "send_failed", "thread %s: %s raised %s on an open connection" % (name, call[0], result)
             op = {"send_text": wire.TEXT, "send_text_raw": wire.TEXT, "send_binary": wire.BINARY, "send_ping": wire.PING,
-                  "send_pong": wire.PONG}[call[0]]
-            mine.append((op, call[1].encode("utf-8")))
+                  "send_pong": wire.PONG, "send_binary_hex": wire.BINARY}[call[0]]
+            mine.append((op, bytes.fromhex(call[1]) if call[0] == "send_binary_hex" else call[1].encode("utf-8")))
         expected.append((name, mine))
     lib = []
     loop = scn.get("loop")
